@@ -128,7 +128,7 @@ def pairs(cell):
                 out.append({'msg': f'{name} request {q}: not every plain row occurs in the extra-data result ({len(m)} of {len(p)} matched)', 'key': None})
         matched = {id(b) for a, b in m}
         for row, fl in zip(e, ef):
-            if id(row) not in matched and not fl & 7:
+            if id(row) not in matched and not fl & ~8:       # any flag of the library's TrajFlag other than RANGE marks an event (ZERO_UP/DOWN, MACH, APEX)
                 if len(out) < 3:
                     out.append({'msg': f'{name} request {q}: extra-data result has an additional row at {row[1] / 12!r} ft that carries no event flag (flag {fl})', 'key': None})
                 break
